@@ -5,9 +5,6 @@ R="${VERIF_ROOT:-/verif}"
 cd "$R/harness" || exit 2
 cargo build --release -p downstream --features std --target-dir "$R/work/target-ds-feat" >"$R/work/build-ds-feat.log" 2>&1 || { echo "downstream (features) build failed"; tail -n 30 "$R/work/build-ds-feat.log"; exit 2; }
 cargo build --release -p downstream --target-dir "$R/work/target-ds-nofeat" >"$R/work/build-ds-nofeat.log" 2>&1 || { echo "downstream (no features) build failed"; tail -n 30 "$R/work/build-ds-nofeat.log"; exit 2; }
-# ... and the same interpreter against an alloc-only and a feature-less rrtk (own workspace: no feature unification)
-cd "$R/ds_variants" || exit 2
-[ -f Cargo.lock ] || cp "$R/cfgrun/Cargo.lock" Cargo.lock
-CARGO_NET_OFFLINE=true cargo build --offline --release --features interp_alloc --target-dir "$R/work/target-ds-alloc" >"$R/work/build-ds-alloc.log" 2>&1 || { echo "ds_variant (alloc-only rrtk) build failed"; tail -n 30 "$R/work/build-ds-alloc.log"; exit 2; }
-CARGO_NET_OFFLINE=true cargo build --offline --release --target-dir "$R/work/target-ds-bare" >"$R/work/build-ds-bare.log" 2>&1 || { echo "ds_variant (feature-less rrtk) build failed"; tail -n 30 "$R/work/build-ds-bare.log"; exit 2; }
+# (the ds_variants crate - the same interpreter against an alloc-only and a feature-less rrtk - is built by the check itself,
+#  which has to tell a to_dyn! that does not compile there from an unrelated build problem)
 exit 0
